@@ -923,7 +923,7 @@ func rulePlaintextExemptions(c *core.Ctx) {
 			rel = append(rel, cnd)
 		}
 		o.Fact("guards: %v", rel)
-		o.Require(len(rel) == 2 && rel[0] == "!(skipDefaultEncrypt)" && rel[1] == "w.w.enc != nil", "EncryptStream is guarded by %v, want [!(skipDefaultEncrypt) w.w.enc != nil]", rel)
+		o.Shape(len(rel) == 2 && rel[0] == "!(skipDefaultEncrypt)" && rel[1] == "w.w.enc != nil", "EncryptStream is guarded by %v, want [!(skipDefaultEncrypt) w.w.enc != nil]", rel)
 		o.Require(core.ExprStr(es[0].Call.Args[0]) == "ref", "the stream is encrypted under %s instead of its own reference", core.ExprStr(es[0].Call.Args[0]))
 		// definitions of skipDefaultEncrypt
 		skip := localVar(fn, "skipDefaultEncrypt", 0)
@@ -1078,7 +1078,7 @@ func ruleEncryptDictTables(c *core.Ctx) {
 			}
 			return true
 		})
-		o.Require(joinSet(vs) == "Integer(1),Integer(2),Integer(4),Integer(5)", "AsDict writes V values %s", joinSet(vs))
+		o.Shape(joinSet(vs) == "Integer(1),Integer(2),Integer(4),Integer(5)", "AsDict writes V values %s", joinSet(vs))
 		o.Require(joinSet(cfm) == "AESV2,AESV3", "AsDict writes CFM values %s, want AESV2 (V4) and AESV3 (V5)", joinSet(cfm))
 		// reader's CFM cases
 		rcfm := map[string]bool{}
